@@ -18,7 +18,7 @@ func init() {
 		LevelText: "Exploration: for every error-free generated or corpus program x the monitor runs t1=Format(Parse(x)), requires Parse(t1) to be error free and Format(Parse(t1)) == t1 byte for byte.",
 		Technique: "runtime monitoring: metamorphic oracle format∘format = format over generated programs",
 		DesignRef: "§4 C03",
-		Rule:      "cases: gen.Program(syntax/lang) with Invalid=0, corpus scripts and their mutations; distinct by sha256(text); non-trivial when the input parsed error free and formatting changed at least one byte or the text has ≥3 lines",
+		Rule:      "cases: gen.Program(syntax/lang) with Invalid=0, corpus scripts; distinct by sha256(text); non-trivial when the input parsed error free and formatting changed at least one byte or the text has ≥3 lines",
 		Chunk:     64,
 		Gen:       genC03,
 		Exec:      execC03,
@@ -41,13 +41,11 @@ func genC03(seed int64, tier string, emit func(run.Case)) {
 	syn.Invalid = 0
 	for i := 0; i < n; i++ {
 		q := r.Sub(i)
-		switch q.Intn(5) {
+		// The property quantifies over grammar-generated programs and the repository's
+		// scripts, not over raw byte mutations (those are C01's business).
+		switch q.Intn(3) {
 		case 0:
 			add(gen.Program(q, gen.ProfileLang), "lang")
-		case 1:
-			add(gen.Mutate(q, gen.Pick(q, cor)), "corpus-mut")
-		case 2:
-			add(gen.Mutate(q, gen.Program(q, syn)), "syntax-mut")
 		default:
 			add(gen.Program(q, syn), "syntax")
 		}
@@ -89,16 +87,41 @@ func classifyC03(m *d2ast.Map, in, t1, t2 string) string {
 	boardKw, importExt, edgeCharKey, array := false, false, false, false
 	d2ast.Walk(m, func(n d2ast.Node) bool {
 		switch t := n.(type) {
+		case *d2ast.Key:
+			// board keyword used other than as a lower-case, unquoted, single-segment key
+			// holding a non-empty map (the only form the printer's board hoisting handles)
+			if t.Key != nil {
+				for i, sb := range t.Key.Path {
+					if sb == nil || sb.Unbox() == nil {
+						continue
+					}
+					k := sb.Unbox().ScalarString()
+					lk := strings.ToLower(k)
+					if lk != "layers" && lk != "scenarios" && lk != "steps" {
+						continue
+					}
+					_, unq := sb.Unbox().(*d2ast.UnquotedString)
+					proper := k == lk && unq && len(t.Key.Path) == 1 && i == 0 && len(t.Edges) == 0 &&
+						t.Value.Map != nil && len(t.Value.Map.Nodes) > 0 && t.Primary.Unbox() == nil
+					if !proper {
+						boardKw = true
+					}
+				}
+			}
+		case *d2ast.Map:
+			// a board block that shares its line with the previous statement (`r;layers{…}`)
+			for i := 1; i < len(t.Nodes); i++ {
+				if t.Nodes[i].IsBoardNode() && t.Nodes[i-1].Unbox() != nil &&
+					t.Nodes[i-1].Unbox().GetRange().End.Line == t.Nodes[i].Unbox().GetRange().Start.Line {
+					boardKw = true
+				}
+			}
 		case *d2ast.KeyPath:
 			for _, sb := range t.Path {
 				if sb == nil || sb.Unbox() == nil {
 					continue
 				}
 				k := sb.Unbox().ScalarString()
-				lk := strings.ToLower(k)
-				if lk == "layers" || lk == "scenarios" || lk == "steps" {
-					boardKw = true
-				}
 				if _, unq := sb.Unbox().(*d2ast.UnquotedString); unq && (strings.HasSuffix(k, "-") || strings.HasSuffix(k, " ") || strings.HasPrefix(k, " ")) {
 					edgeCharKey = true
 				}
@@ -131,7 +154,7 @@ func classifyC03(m *d2ast.Map, in, t1, t2 string) string {
 	case strings.Contains(t1, "\\\n") || (edgeCharKey && !layoutOnly):
 		return "unquoted-key-with-escaped-edge-space-or-trailing-dash"
 	case boardKw:
-		return "board-keyword-used-as-key"
+		return "board-keyword-in-unusual-form"
 	case importExt && !layoutOnly:
 		return "import-path-with-d2-extension"
 	case layoutOnly && oneLine:
